@@ -514,6 +514,21 @@ fn build_expr(v: &Value) -> Expr {
     }
 }
 
+/// Like `build_expr`, but every leaf is first bound to a local (`l<k> = opq(leaf)`, appended to
+/// `lets`) and the aggregate is built from those locals: no call between the aggregate's stores.
+fn build_expr_from_locals(v: &Value, lets: &mut Vec<Stmt>) -> Expr {
+    match v {
+        Value::Tuple(vs) => Expr::Tuple(vs.iter().map(|v| build_expr_from_locals(v, lets)).collect()),
+        Value::Struct(i, vs) => Expr::Struct(*i, vs.iter().map(|v| build_expr_from_locals(v, lets)).collect()),
+        Value::Array(vs) => Expr::Array(vs.iter().map(|v| build_expr_from_locals(v, lets)).collect()),
+        leaf => {
+            let name = format!("l{}", lets.len());
+            lets.push(Stmt::Let(name.clone(), false, None, opq(lit(leaf.clone()))));
+            var(&name)
+        }
+    }
+}
+
 fn leaf_paths(t: &Ty, d: &Decls) -> Vec<(Vec<Step>, Ty)> {
     match t {
         Ty::Tuple(ts) => ts
@@ -688,6 +703,44 @@ fn s3_over(size: usize, space: &'static str, decls: Decls, tys: Vec<Ty>) -> Vec<
                     if var_index { " varidx" } else { "" }
                 );
                 out.push(finish(desc, space, prog, body));
+                if !var_index {
+                    // "window" variant: all opaque values are produced first, then the aggregate is
+                    // built, copied, written and read member-wise with NO call in between (the
+                    // shape in which the IR alias analysis / store-to-load forwarding / SROA see the
+                    // whole story in one basic block); only then are the results logged
+                    let mut seed = 0u64;
+                    let v0 = build_value(&t, &d, &mut seed);
+                    let n1 = leaf_value(leaf_ty, &mut seed);
+                    let n2 = leaf_value(leaf_ty, &mut seed);
+                    let mut body = vec![];
+                    let a_expr = build_expr_from_locals(&v0, &mut body);
+                    body.push(Stmt::Let("n1v".into(), false, None, opq(lit(n1))));
+                    body.push(Stmt::Let("n2v".into(), false, None, opq(lit(n2))));
+                    let proj = |base: &str| lvalue_to_expr(&path_lv(base, path, false));
+                    body.extend([
+                        Stmt::Let("a".into(), false, None, a_expr),
+                        Stmt::Let("pa0".into(), false, None, proj("a")),
+                        Stmt::Let("b".into(), true, None, var("a")),
+                        Stmt::Assign(path_lv("b", path, false), var("n1v")),
+                        Stmt::Let("pa".into(), false, None, proj("a")),
+                        Stmt::Let("pb".into(), false, None, proj("b")),
+                        Stmt::Let("c".into(), true, None, var("b")),
+                        Stmt::Assign(path_lv("c", path, false), var("n2v")),
+                        Stmt::Let("pc".into(), false, None, proj("c")),
+                        Stmt::Let("pb2".into(), false, None, proj("b")),
+                        Stmt::Log(var("pa0")),
+                        Stmt::Log(var("pa")),
+                        Stmt::Log(var("pb")),
+                        Stmt::Log(var("pc")),
+                        Stmt::Log(var("pb2")),
+                        Stmt::Log(var("a")),
+                        Stmt::Log(var("b")),
+                        Stmt::Log(var("c")),
+                    ]);
+                    let prog = Program { decls: d.clone(), ..Default::default() };
+                    let desc = format!("S3w/size{size}/ty#{ti} {} path#{pi}", t.print(&d));
+                    out.push(finish(desc, space, prog, body));
+                }
             }
         }
     }
@@ -1426,6 +1479,85 @@ pub fn asm_shapes() -> Vec<Case> {
                 out.push(finish(format!("asm/constidx len={len} w={wi} r={ri}"), "asm", Program::default(), body));
             }
         }
+    }
+    out.extend(asm_kernels(3));
+    out
+}
+
+/// Inline-asm kernels for the abstract-instruction optimiser: EVERY sequence of up to `max_len`
+/// pointer-arithmetic / load / store instructions over a 16-word heap buffer (`buf[k] = 100 + k`),
+/// a pointer `p` (starts at &buf[2]), a derived pointer `q` (starts at &buf[5]), a run-time
+/// displacement `d` (8) and a run-time value `v` (77). Result = last loaded word * 100003 + the
+/// sum of all 16 words, computed by a word-array reference machine. Sequences that would leave
+/// the buffer are skipped. The shapes: in-place bumps of a register whose content the optimiser
+/// knows / does not know, derived pointers, copies, constant-offset loads and stores.
+pub fn asm_kernels(max_len: usize) -> Vec<Case> {
+    const OPS: [&str; 9] = [
+        "addi p p i8;", "addi p p i16;", "addi q p i8;", "move p q;", "add p p d;", "lw x p i0;", "lw x p i1;", "sw p v i0;", "sw p v i1;",
+    ];
+    let mut out = vec![];
+    let mut seqs: Vec<Vec<usize>> = vec![vec![]];
+    let mut all: Vec<Vec<usize>> = vec![];
+    for _ in 0..max_len {
+        let mut next = vec![];
+        for sq in &seqs {
+            for o in 0..OPS.len() {
+                let mut n = sq.clone();
+                n.push(o);
+                next.push(n);
+            }
+        }
+        all.extend(next.iter().cloned());
+        seqs = next;
+    }
+    'seq: for sq in all {
+        // reference machine
+        let mut buf: Vec<u64> = (0..16).map(|k| 100 + k).collect();
+        let (mut pi, mut qi, mut x) = (2usize, 5usize, 0u64);
+        for o in &sq {
+            match o {
+                0 => pi += 1,
+                1 => pi += 2,
+                2 => qi = pi + 1,
+                3 => pi = qi,
+                4 => pi += 1,
+                5 | 6 => {
+                    let i = pi + (*o - 5);
+                    if i >= 16 {
+                        continue 'seq;
+                    }
+                    x = buf[i];
+                }
+                _ => {
+                    let i = pi + (*o - 7);
+                    if i >= 16 {
+                        continue 'seq;
+                    }
+                    buf[i] = 77;
+                }
+            }
+            if pi >= 16 || qi >= 16 {
+                continue 'seq;
+            }
+        }
+        let result = x * 100003 + buf.iter().sum::<u64>();
+        let mut t = String::from("asm(d: opq(8u64), v: opq(77u64), a, c, p, q, x, y, t) { movi a i128; aloc a; ");
+        for k in 0..16 {
+            t.push_str(&format!("movi c i{}; sw hp c i{k}; ", 100 + k));
+        }
+        t.push_str("addi p hp i16; addi q hp i40; movi x i0; ");
+        for o in &sq {
+            t.push_str(OPS[*o]);
+            t.push(' ');
+        }
+        t.push_str("movi y i0; ");
+        for k in 0..16 {
+            t.push_str(&format!("lw t hp i{k}; add y y t; "));
+        }
+        t.push_str("movi t i100003; mul x x t; add x x y; x: u64 }");
+        let name: String = sq.iter().map(|o| char::from(b'a' + *o as u8)).collect();
+        let body = vec![Stmt::Log(Expr::Raw(t, Box::new(u(result))))];
+        out.push(finish(format!("asmk/{name}"), "asmk", Program::default(), body));
     }
     out
 }
